@@ -1879,13 +1879,13 @@ func runShorten(c caseDesc) *report {
 	p0 := atomic.LoadInt64(&rs.nPassed)
 	var stop int32
 	var fmu sync.Mutex
-	for g := 0; g < 8; g++ {
+	for g := 0; g < 16; g++ { // demand well above any configured rate: what is admitted is decided by the limiter alone
 		wg.Add(1)
 		go func(g int) {
 			defer wg.Done()
 			for atomic.LoadInt32(&stop) == 0 {
 				call(links[g%len(links)].A)
-				time.Sleep(200 * time.Microsecond)
+				runtime.Gosched()
 			}
 		}(g)
 	}
